@@ -403,11 +403,37 @@ def rule_carry(ctx):
                   "ChangeCipherSpec in TLS <= 1.2) the negotiated value is %s" % (k, kw.get(k), v), fs.loc(create))
     ctx.check(R, "self.session.serverName" in kw.get("server_name", ""), fs.qname, "ticket carries the server name",
               "the ticket must carry the session's server name", fs.loc(create))
-    sec = [x for x in own_nodes(fs.node) if isinstance(x, ast.If) and norm(x.test) == "self.version < (3, 4)"
-           and x.body and norm(x.body[0]) == "secret = self.session.masterSecret"
-           and x.orelse and norm(x.orelse[0]) == "secret = self.session.resumptionMasterSecret"]
-    ctx.check(R, bool(sec), fs.qname, "ticket secret = master secret (<=1.2) / resumption master secret (1.3)",
-              "the secret stored in the ticket must be the (resumption) master secret of this session", fs.loc())
+    # which secret the ticket carries, per version: followed through whatever assigns it (if/else or a
+    # conditional expression) by walking the function for each version (condeval.outcomes, nothing is run)
+    from ..condeval import outcomes, ev, Unknown
+    g_ = ctx.an.cfg(fs)
+    cache_ = {}
+
+    def ao_(t):
+        if t.id not in cache_:
+            cache_[t.id] = dead_edge_labels(g_, t, [g_.exit])
+        return cache_[t.id]
+    bad = None
+    for ver, want in (((3, 1), "MS"), ((3, 3), "MS"), ((3, 4), "RMS")):
+        seen_ = set()
+
+        def visit(n, ve, taint, seen_=seen_):
+            if n.ast is not None and any(x is create for x in ast.walk(n.ast)) and create.args:
+                try:
+                    seen_.add(ev(create.args[0], ve))
+                except (Unknown, TypeError, AttributeError):
+                    seen_.add(None)
+        env_ = {"self.version": ver, "self.session.masterSecret": "MS", "self.session.resumptionMasterSecret": "RMS",
+                "settings.ticket_count": 1, "settings.ticketKeys": (b"k",), "__index__": ctx.index, "__an__": ctx.an}
+        outcomes(g_, fs.node, env_, ao_, visit=visit, track_all=True)
+        if seen_ != {want}:
+            bad = "for version %r the ticket is created with %s" % (
+                ver, sorted(("the master secret" if x == "MS" else "the resumption master secret" if x == "RMS" else "an undetermined value")
+                            for x in seen_) or "nothing")
+            break
+    ctx.check(R, bad is None, fs.qname, "ticket secret = master secret (<=1.2) / resumption master secret (1.3)",
+              "the secret stored in the ticket must be the master secret up to TLS 1.2 and the resumption master "
+              "secret in TLS 1.3: %s" % bad, fs.loc())
     # restore
     ft = ctx.index.func(TLSCONN + "_ticket_to_session")
     cr = None
@@ -586,8 +612,18 @@ def rule_pending_source(ctx):
                      and (attr_chain(n) or "").startswith("self._pending") for n in own_nodes(m.node))
         if sides and not stores:
             acc[name] = sides
+    # the accessor the session and the ticket are filled from must itself read a pending state
+    named = rl.methods.get("_get_pending_state_etm")
+    if named is None:
+        raise AnalysisError("%s: RecordLayer._get_pending_state_etm not found" % R)
+    ctx.check(R, "_get_pending_state_etm" in acc, named.qname, "accessor reads a pending state",
+              "_get_pending_state_etm returns `%s`: the encrypt-then-MAC flag recorded in the session and in tickets "
+              "must be the one of the PENDING connection state (the state in force still belongs to the previous "
+              "epoch when the session is created and the ticket is sealed)" % "; ".join(
+                  norm(x.value) for x in own_nodes(named.node) if isinstance(x, ast.Return) and x.value is not None),
+              named.loc(), what="_get_pending_state_etm reads a pending connection state")
     if not acc:
-        raise AnalysisError("%s: no accessor of a pending connection state found in RecordLayer" % R)
+        return
     fams = [f for f in ctx.index.all_functions() if f.cls is not None and f.cls.name in ("TLSConnection", "TLSRecordLayer")]
     by_name = {}
     for f in fams:
